@@ -29,6 +29,10 @@ func gen(r *hlib.Rand, n int, tier, profile string, emit func(string, ...any)) {
 	ops := 0
 	tid := 0
 	for ops < n {
+		if r.Chance(1, 4) {
+			steady(r, emit, &ops, &tid)
+			continue
+		}
 		L := hlib.Pick(r, uint64(8192), 8192, 8192, 64, 16, 128)
 		emit("reset %d", L)
 		ops++
@@ -135,6 +139,69 @@ func gen(r *hlib.Rand, n int, tier, profile string, emit func(string, ...any)) {
 		emit("dump")
 		ops++
 	}
+}
+
+// steady: a tunnel past warm-up whose window is (almost) completely received, head on / next to a
+// 64-bit word boundary; a few packets are lost (short jump); then the oldest packets still inside the
+// window are replayed, directly and through the relay path, as whole calls and step by step.
+func steady(r *hlib.Rand, emit func(string, ...any), ops *int, tid *int) {
+	L := hlib.Pick(r, uint64(128), 128, 128, 256, 256, 1024, 8192)
+	emit("reset %d", L)
+	*ops++
+	head := L + uint64(r.Intn(130))
+	want := hlib.Pick(r, uint64(63), 63, 63, 63, 62, 0, uint64(r.Intn(64)))
+	for head%64 != want {
+		head++
+	}
+	cur := uint64(0)
+	for cur < head {
+		piece := head - cur
+		if r.Chance(1, 3) && piece > 4 {
+			piece = uint64(r.Intn(int(piece-2))) + 1
+		}
+		emit("burst %d %d %d", *tid, cur+1, piece)
+		*tid += int(piece)
+		*ops++
+		cur += piece
+		if cur+3 < head && r.Chance(1, 2) {
+			cur += uint64(r.Range(1, 2)) // lost packets
+		}
+	}
+	deliver := func(c uint64, kind string) {
+		emit("pkt %d %d %s", *tid, c, kind)
+		if r.Chance(1, 2) {
+			emit("full %d", *tid)
+			*ops += 2
+		} else {
+			emit("step %d", *tid)
+			emit("step %d", *tid)
+			emit("step %d", *tid)
+			*ops += 4
+		}
+		*tid++
+	}
+	for k := r.Range(1, 3); k > 0; k-- {
+		gap := uint64(hlib.Pick(r, r.Range(2, 63), r.Range(2, 63), r.Range(2, 63), 2, 63, 64, 65, r.Range(66, 200)))
+		cur += gap
+		deliver(cur, hlib.Pick(r, "valid", "valid", "relay"))
+		// replays of the oldest counters still inside the window (and one just outside)
+		for j := r.Range(2, 6); j > 0; j-- {
+			deliver(cur-L+1+uint64(r.Intn(64)), hlib.Pick(r, "valid", "valid", "relay", "forged"))
+		}
+		deliver(cur-L, "valid")
+		if k > 1 {
+			next := cur + 1
+			for next%64 != 63 {
+				next++
+			}
+			emit("burst %d %d %d", *tid, cur+1, next-cur)
+			*tid += int(next - cur)
+			*ops++
+			cur = next
+		}
+	}
+	emit("dump")
+	*ops++
 }
 
 type thread struct {
@@ -259,6 +326,22 @@ func newExec(t *testing.T) func([]string) string {
 			threads[hlib.Atoi(a[1])] = &thread{ctr: c, relay: strings.HasPrefix(a[3], "relay"), pkt: build(c, a[3]),
 				nb: make([]byte, 12), go1: make(chan struct{}), go2: make(chan struct{}), auth: make(chan bool), done: make(chan string, 1)}
 			return "ok"
+		case "burst":
+			if cs == nil {
+				return "bad-op"
+			}
+			t0, from, cnt := hlib.Atoi(a[1]), hlib.Atou(a[2]), hlib.Atoi(a[3])
+			g.cur = nil
+			k := 0
+			for i := 0; i < cnt; i++ {
+				c := from + uint64(i)
+				th := &thread{ctr: c, pkt: build(c, "valid"), pc: 3}
+				threads[t0+i] = th
+				if receive(th, nb) == "delivered" {
+					k++
+				}
+			}
+			return fmt.Sprintf("delivered=%d", k)
 		case "dump":
 			if cs == nil {
 				return "bad-op"
